@@ -149,6 +149,10 @@ func (l capListener) Accept() (net.Conn, error) {
 	return c, err
 }
 
+// retry policy whose backoff (5 s +-20 %) is much longer than the life of the RPC's context
+const retryPolicy = `"methodConfig":[{"name":[{}],"retryPolicy":{"maxAttempts":4,"initialBackoff":"5s","maxBackoff":"5s",` +
+	`"backoffMultiplier":1.0,"retryableStatusCodes":["UNAVAILABLE"]}}]`
+
 // ---- one case ------------------------------------------------------------------------------
 
 type rec struct {
@@ -190,12 +194,18 @@ func runCase(id int, k kase) (row map[string]any) {
 		}
 	}()
 	var inj error
-	if k.Src != "context" && k.Src != "transport" {
+	switch k.Src {
+	case "context", "transport", "retry_server":
+	case "retry_picker":
+		inj = errors.New("c24: no backend") // fail-fast RPC: UNAVAILABLE, retryable
+	default:
 		inj = mkErr(k.Kind)
 	}
 	entered := make(chan struct{}, 4)
 	handler := func(_ any, ss grpc.ServerStream) error {
 		switch {
+		case k.Src == "retry_server":
+			return status.Error(codes.Unavailable, "c24: retry me") // trailers-only, retryable
 		case k.Src == "handler":
 			var in []byte
 			ss.RecvMsg(&in)
@@ -237,6 +247,12 @@ func runCase(id int, k kase) (row map[string]any) {
 		pickerErrs.Store(endpoint, inj)
 		defer pickerErrs.Delete(endpoint)
 		dopts = append(dopts, grpc.WithDefaultServiceConfig(`{"loadBalancingConfig":[{"`+lbName+`":{}}]}`))
+	case "retry_picker":
+		pickerErrs.Store(endpoint, inj)
+		defer pickerErrs.Delete(endpoint)
+		dopts = append(dopts, grpc.WithDefaultServiceConfig(`{"loadBalancingConfig":[{"`+lbName+`":{}}],`+retryPolicy+`}`))
+	case "retry_server":
+		dopts = append(dopts, grpc.WithDefaultServiceConfig(`{`+retryPolicy+`}`))
 	case "configsel":
 		r := manual.NewBuilderWithScheme("c24r")
 		sc := internal.ParseServiceConfig.(func(string) *serviceconfig.ParseResult)("{}")
@@ -271,6 +287,14 @@ func runCase(id int, k kase) (row map[string]any) {
 		ctx, cancel = context.WithTimeout(context.Background(), 50*time.Millisecond)
 	case "cancel_during":
 		go func() { <-entered; cancel() }()
+	case "cancel_backoff":
+		// the backoff before the second attempt lasts 4-6 s; the context ends well inside it (if the
+		// machine is so slow that it ends earlier the RPC still ends CANCELED / DEADLINE_EXCEEDED)
+		tm := time.AfterFunc(700*time.Millisecond, cancel)
+		defer tm.Stop()
+	case "deadline_backoff":
+		cancel()
+		ctx, cancel = context.WithTimeout(context.Background(), 700*time.Millisecond)
 	case "client_conn_closed", "server_conn_closed":
 		go func() { <-entered; (<-conns).Close() }()
 	}
